@@ -1087,6 +1087,12 @@ func (e *Exec) predict(bt *BuiltTx, blk *Block, n *Node) *prediction {
 			p.FeeOK = false
 		}
 	}
+	if len(bt.Granter) > 0 && p.Payer != nil && !bytes.Equal(bt.Granter, p.Payer) {
+		// somebody else is named to pay the fee: that takes a fee allowance from that account to the fee payer, and no
+		// allowance exists anywhere on the simulated chain - whoever the named account is (a later signer included), and
+		// whatever the fee (the allowance is looked up for a zero fee too)
+		p.FeeOK = false
+	}
 	if !p.SigOK || !p.FeeOK {
 		return p
 	}
@@ -1269,7 +1275,11 @@ func (e *Exec) deliverOnR0(p *pendingTx, blk *Block, rec *BlockRec) {
 			gas = 30_000_000
 		}
 		var err error
-		bt, err = e.Env.BuildTx(TxParams{Msgs: msgs, Signers: signers, Modes: t.Modes, Seqs: seqs, AccNums: nums, ChainID: chain, Fee: e.feeOf(t), Gas: gas, SignOver: signOver})
+		var granter sdk.AccAddress
+		if t.Granter != "" {
+			granter, _ = sdk.AccAddressFromBech32(t.Granter)
+		}
+		bt, err = e.Env.BuildTx(TxParams{Msgs: msgs, Signers: signers, Modes: t.Modes, Seqs: seqs, AccNums: nums, ChainID: chain, Fee: e.feeOf(t), Gas: gas, SignOver: signOver, Granter: granter})
 		if err != nil {
 			// the SDK client refuses to build it (e.g. GetSigners panics on a malformed address): send it raw
 			bt, err = e.Env.BuildRawTx(msgs, signers, seqs, nums, chain, e.feeOf(t), gas)
@@ -1501,7 +1511,11 @@ func (e *Exec) judgeTx(p *pendingTx, bt *BuiltTx, pred *prediction, accepted boo
 		return
 	case !pred.FeeOK:
 		if accepted {
-			e.viol("C15", "fee.unpayable_accepted", ent, "tx %s accepted although the payer cannot pay %s", desc, bt.Fee)
+			why := "the payer cannot pay"
+			if len(bt.Granter) > 0 {
+				why = fmt.Sprintf("it names %s as fee granter and no fee allowance exists", sdk.AccAddress(bt.Granter))
+			}
+			e.viol("C15", "fee.unpayable_accepted", ent, "tx %s accepted although %s (fee %s)", desc, why, bt.Fee)
 			e.resync(r0.DeliverStores())
 		}
 		return
